@@ -4,7 +4,7 @@
    outputs: the theorems hold whatever they return. *)
 From Coq Require Import QArith List Bool ZArith Sorted.
 Require Import SkV.C17.Model SkV.C17.Cases SkV.C17.Gen SkV.C17.Proofs SkV.C17.Bridge
-  SkV.C17.CheckSound.
+  SkV.C17.CheckSound SkV.C17.Sites SkV.C17.BridgeSites.
 Import ListNotations.
 Open Scope Q_scope.
 
@@ -237,6 +237,84 @@ Print Assumptions C17_column_ensemble_is_mean_of_members.
 (* non-vacuity: three members with weights 1/2, 1/4, 1/4 voting "b", "a", "b" over the training
    labels ["b";"a";"c";"b"] (strings as code points): classes_ = a, b, c; row = 1/4, 3/4, 0; the
    prediction is "b"; against the truth "b" the score is 1; and the slope of 1,3,5,7 is 2 *)
+(* the combinators the theorems above are about ARE what the source computes: `gen_*` (C17/Sites.v)
+   are regenerated on this run from the predict_proba / predict functions of the classifiers by
+   translator/combine_c17.py.  (1) the three forests and the column ensemble average their members'
+   rows, the forest regressor its trees' predictions; (2) the forests' predict decodes the first
+   maximal column through classes_; (3) BOSS / cBOSS / IndividualBOSS normalise vote counts;
+   (4) the forest features of an interval are (mean, std, slope) of the slice [start, end) in this
+   order and an interval is drawn as the model says *)
+Theorem C17_code_sites_are_the_model :
+  (forall k rows, Forall2 Qeq (gen_tsf_combine k rows) (mean_rows k rows) /\
+                  Forall2 Qeq (gen_stsf_combine k rows) (mean_rows k rows) /\
+                  gen_rise_combine k rows = mean_rows k rows /\
+                  gen_colens_combine k rows = mean_rows k rows) /\
+  (forall forest x, gen_tsfreg_combine (map (fun m => snd m (tsf_features (fst m) x)) forest) =
+                    tsf_reg_predict forest x) /\
+  (forall (L : Type) (classes : list L) row,
+     gen_tsf_predict L classes row = predict_label classes row /\
+     gen_stsf_predict L classes row = predict_label classes row /\
+     gen_rise_predict L classes row = predict_label classes row) /\
+  (forall (L : Type) (eqb : L -> L -> bool) classes vs,
+     (forall denom, denom == total_weight vs ->
+        Forall2 Qeq (gen_cboss_row L eqb classes vs denom) (vote_row eqb classes vs)) /\
+     (Forall (fun v => snd v == 1) vs ->
+        Forall2 Qeq (gen_boss_row L eqb classes vs (qlen vs)) (vote_row eqb classes vs)) /\
+     (forall pred, Forall2 Qeq (gen_iboss_row L eqb classes pred) (vote_row eqb classes [(pred, 1)]))) /\
+  (forall x iv, gen_interval_features x iv = interval_features x iv) /\
+  (forall n mi sl d1 d2 rest, get_intervals (S n) mi sl (d1 :: d2 :: rest) =
+                              gen_one_interval mi sl d1 d2 :: get_intervals n mi sl rest).
+Proof.
+  split.
+  { intros k rows. split; [apply gen_tsf_combine_is_mean_rows|].
+    split; [apply gen_stsf_combine_is_mean_rows|]. split; reflexivity. }
+  split; [exact gen_tsfreg_combine_is_model|].
+  split; [intros L classes row; apply gen_predict_is_predict_label|].
+  split.
+  { intros L eqb classes vs. split; [intros denom H; apply gen_cboss_row_is_vote_row; exact H|].
+    split; [apply gen_boss_row_is_vote_row|apply gen_iboss_row_is_vote_row]. }
+  split; [exact gen_interval_features_is_model|exact gen_one_interval_is_get_intervals_step].
+Qed.
+Print Assumptions C17_code_sites_are_the_model.
+
+(* the repaired SupervisedTimeSeriesForest, as regenerated from the source: the row a tree
+   contributes is its own row placed by label under the forest's classes_ - whatever classes its
+   bootstrap bag contained - and the forest's row is the mean of these, i.e. the model's `tsf_proba`
+   of theorem C17_tsf_proba_is_mean_of_trees_on_features.  classes_ of the forest and of every tree
+   are strictly increasing (sorted distinct labels), a tree's classes are among the forest's *)
+Theorem C17_stsf_source_places_tree_columns_by_label :
+  forall (L : Type) (leb eqb : L -> L -> bool), (forall a b, eqb a b = true <-> a = b) ->
+  (forall a b, leb a b = true -> leb b a = true -> a = b) ->
+  forall classes (forest : list (fmember L)) x,
+  StronglySorted (llt L leb) classes ->
+  (forall m, In m forest -> StronglySorted (llt L leb) (tree_classes m) /\
+                            incl (tree_classes m) classes /\
+                            length (tree_row m x) = length (tree_classes m)) ->
+  (forall m, In m forest ->
+     gen_stsf_tree_row L eqb classes (tree_classes m) (tree_row m x) =
+     place_row eqb classes (tree_classes m) (tree_row m x)) /\
+  Forall2 Qeq
+    (gen_stsf_combine (length classes)
+       (map (fun m => gen_stsf_tree_row L eqb classes (tree_classes m) (tree_row m x)) forest))
+    (tsf_proba eqb classes forest x).
+Proof.
+  intros L leb eqb Hs Ha classes forest x Hc H. split.
+  - intros m Hm. destruct (H m Hm) as (H1 & H2 & H3).
+    apply (gen_stsf_tree_row_is_place_row L leb eqb Hs Ha); assumption.
+  - apply (gen_stsf_proba_is_model L leb eqb Hs Ha); assumption.
+Qed.
+Print Assumptions C17_stsf_source_places_tree_columns_by_label.
+
+(* the time series forest proper (trees fitted on the whole training set), as regenerated *)
+Theorem C17_tsf_source_is_the_model_forest :
+  forall (L : Type) (eqb : L -> L -> bool), (forall a b, eqb a b = true <-> a = b) ->
+  forall classes (forest : list (fmember L)) x, NoDup classes ->
+  (forall m, In m forest -> tree_classes m = classes /\ length (tree_row m x) = length classes) ->
+  Forall2 Qeq (gen_tsf_combine (length classes) (map (fun m => tree_row m x) forest))
+              (tsf_proba eqb classes forest x).
+Proof. intros L eqb. exact (gen_tsf_proba_is_model eqb). Qed.
+Print Assumptions C17_tsf_source_is_the_model_forest.
+
 (* non-vacuity of the forest theorem: classes_ = [-3; 7; 42]; one tree saw all three classes, one
    tree's bag missed 42, one missed -3; both short rows are placed by label and the forest's row is
    the mean of the three placed rows *)
